@@ -14,16 +14,13 @@
 //! signatures applied by hand) and sent to the Lean side as oracle tables.
 use std::collections::BTreeSet;
 
-use miniscript::bitcoin::hashes::{hash160, Hash};
+use miniscript::bitcoin::hashes::Hash;
 use miniscript::bitcoin::key::TapTweak;
-use miniscript::bitcoin::opcodes;
 use miniscript::bitcoin::script::{Instruction, PushBytesBuf};
 use miniscript::bitcoin::secp256k1::{self, Message, Secp256k1, XOnlyPublicKey};
 use miniscript::bitcoin::sighash::{EcdsaSighashType, Prevouts, SighashCache, TapSighashType};
 use miniscript::bitcoin::taproot::{ControlBlock, LeafVersion, TapLeafHash};
-use miniscript::bitcoin::{
-    absolute, transaction, Amount, PublicKey, ScriptBuf, Sequence, Transaction, TxOut, Witness,
-};
+use miniscript::bitcoin::{transaction, Amount, PublicKey, ScriptBuf, Transaction, TxOut, Witness};
 use miniscript::interpreter::{Error as IErr, HashLockType, Interpreter, KeySigPair, SatisfiedConstraint};
 use miniscript::miniscript::types::Base;
 use miniscript::Descriptor;
@@ -363,6 +360,13 @@ fn judge(out: &mut Out, case: &Case, tx: &Transaction, prevout: &TxOut, ss: &Scr
         else if tx.version.0 < 2 && case.has_older { "csv-tx-version-1" }
         else { "plain" };
     let head = format!("{} {}", class, head);
+    // the four known-finding input classes get a fixed budget of ACCEPTED cases per run, so that
+    // their (suppressed) failures can never crowd out an unlisted one
+    if class != "plain" && run.verdict == "accept" {
+        let key = format!("c13 accepted in class {}", class);
+        if out.hist.get(&key).cloned().unwrap_or(0) >= 120 { return true; }
+        out.count(&key);
+    }
     if run.verdict == "PANIC" {
         out.line(&format!("J nopanic interpreter {} | {} PANIC", head, info), "ok");
         return false;
@@ -384,7 +388,7 @@ fn judge(out: &mut Out, case: &Case, tx: &Transaction, prevout: &TxOut, ss: &Scr
             let ans = if run.verdict == "accept" {
                 format!("accept {}", if run.cs.is_empty() { "-".to_string() } else { run.cs.join(",") })
             } else { run.verdict.clone() };
-            out.line(&format!("C interp {} {} {} {} {} {}", ctx.name(), dom_of(ctx), tx.lock_time.to_consensus_u32(),
+            out.line(&format!("C interp {} {} {} {} {} {} {}", ctx.name(), dom_of(ctx), tx.version.0, tx.lock_time.to_consensus_u32(),
                 tx.input[0].sequence.to_consensus_u32(), interp_view(n, ctx == CtxK::Tap).wire(), desc::wit_wire(&st)), &ans);
         }
     }
@@ -565,8 +569,6 @@ fn do_case(out: &mut Out, rng: &mut Rng, case: &Case, leaves: &[Node], assets: &
         b.extend_from_slice(ss_build(&ssi[1..]).as_bytes());
         judge(out, case, &sat.tx, &sat.prevout, &ScriptBuf::from_bytes(b), &wit, false, &format!("{} {} mut:nonminimal-push", mode, assets.wire()), leaf);
     }
-    let _ = hash160::Hash::hash(&[]);
-    let _ = (absolute::LockTime::ZERO, Sequence::ZERO, opcodes::OP_0);
 }
 
 /* ------------------------------------------------------------------ driver */
@@ -597,7 +599,7 @@ pub fn run(out: &mut Out, thorough: bool, seed: u64) {
     ast::emit_defs(out);
     // raw pkh of the uncompressed key used by the thorough atoms
     out.line(&format!("D rawpkh 100 {}", hex(ast::raw_pkh(100).as_byte_array())), "ok");
-    let n_mut = if thorough { 60 } else { 14 };
+    let n_mut = if thorough { 36 } else { 14 };
     let mut n_desc = 0u64;
     // a corpus of descriptors that exercise the interpreter's special arms
     let k = |i: u32| Box::new(Node::Check(Box::new(Node::PkK(i))));
@@ -622,7 +624,7 @@ pub fn run(out: &mut Out, thorough: bool, seed: u64) {
     for (ctx, wraps) in [(CtxK::Segwitv0, vec![Wrap::Wsh, Wrap::ShWsh]), (CtxK::Legacy, vec![Wrap::Sh]), (CtxK::Bare, vec![Wrap::Bare])] {
         let atoms = ast::default_atoms(ctx, !thorough);
         let mut nodes: Vec<Node> = corpus_v0.clone();
-        let frags = ast::enumerate(ctx, &atoms, if thorough { 4 } else { 3 }, if thorough { 40 } else { 5 }, &mut rng);
+        let frags = ast::enumerate(ctx, &atoms, if thorough { 4 } else { 3 }, if thorough { 24 } else { 5 }, &mut rng);
         nodes.extend(frags.iter().filter(|t| t.base == Base::B).map(|t| t.node.clone()));
         for node in &nodes {
             for w in &wraps {
